@@ -13,6 +13,7 @@ FI == IOEnv.F_IMPL = "1"
 ImplDriftStep(e) ==
   IF ~FI \/ e.outcome # "ok" \/ e.res = 0 \/ ~WFExpr(e.hb, e.work) \/ WFExprFailing(e.ha, e.res) # {} THEN {} ELSE
   LET s == TermOf(e.hb, e.work)  o == TermOf(e.ha, e.res)  path == PathTo(e.hb, e.node)  ic == ImplCan(e.rule, e.opt, s, path) IN
+  {"branch:" \o BranchOf(e.rule, e.opt, s, path)} \cup
   IF ~AllConstsHaveValues(s) \/ ic = "unmodelled" THEN {"note_impl_unmodelled"}
   ELSE IF ic = "no" THEN {"drift_impl_applicability"}
   ELSE IF ~AllConstsHaveValues(o) THEN {"note_impl_unmodelled"}
